@@ -32,6 +32,7 @@ func init() {
 			ruleAlwaysCancels(r, "X1")
 			ruleCtxParamUsed(r, "X2")
 			ruleNoRoundTripUnderConnLock(r, le, "X3")
+			ruleC08X4(r)
 			ruleNoReentrantLock(r, le, "L2", "/iscp", "/wire", "/transport/reconnect", "/transport/multi", "/internal/segment")
 			r.borrow("C01", func() { ruleC01R5(r) }) // Close must not wait for a flush loop that is not running (stream waiting to be resumed)
 			ruleDrainBounds(r, "W3")
@@ -616,4 +617,59 @@ func ruleNoReentrantLock(r *Run, le *LockEngine, id string, pkgs ...string) {
 		})
 	}
 	r.Stat("calls_under_lock", n)
+}
+
+// ruleC08X4: Close has to wait for a redial in flight (C10.O18), so the redial must not be able to wait for ever: the
+// connect exchange (wire.Connect waits for the broker's ConnectResponse with no bound of its own) is made by a function
+// that is handed a context by reconnect and arranges for the transport to be closed when that context ends.
+func ruleC08X4(r *Run) {
+	r.Begin("X4", "a redial can be interrupted: the function through which (*Conn).reconnect reaches wire.Connect takes a context.Context that derives from reconnect's own context parameter, and registers (context.AfterFunc, or a goroutine selecting on Done()) a Close of the transport it dialled", 1)
+	p := r.P
+	rec := r.method("/iscp", "Conn", "reconnect")
+	if rec == nil {
+		return
+	}
+	name := fnName(rec)
+	var dials []ssa.Instruction
+	withAnon(rec, func(g *ssa.Function) {
+		dials = append(dials, p.callsReaching(g, 2, "/wire.Connect")...)
+	})
+	if len(dials) == 0 {
+		r.Undecided(name+" dial", "reconnect does not reach wire.Connect")
+		return
+	}
+	for i, d := range dials {
+		cc := instrCall(d)
+		cal := cc.StaticCallee()
+		okCtx, okStop := false, false
+		for j, a := range cc.Args {
+			if !isContextType(a.Type()) {
+				continue
+			}
+			for _, rt := range ctxRoots(a) {
+				if prm, isP := canonVal(rt).(*ssa.Parameter); isP && topFunc(prm.Parent()) == rec {
+					okCtx = true
+				}
+				if fv, isFV := canonVal(rt).(*ssa.FreeVar); isFV && topFunc(fv.Parent()) == rec {
+					okCtx = true
+				}
+			}
+			if cal != nil && cal.Blocks != nil && j < len(cal.Params) {
+				prm := cal.Params[j]
+				allInstrs(cal, func(x ssa.Instruction) {
+					if !isCallNamed(x, "context.AfterFunc") {
+						return
+					}
+					args := instrCall(x).Args
+					if len(args) < 2 || canonVal(args[0]) != ssa.Value(prm) {
+						return
+					}
+					if f := closureOf(args[1]); f != nil && (p.reachesCall(f, 1, "/transport.Transport.Close", "/transport.Closer.Close", "/transport.ReadWriter.Close") || len(callsTo(f, false, func(o *types.Func, _ *ssa.CallCommon) bool { return o.Name() == "Close" })) > 0) {
+						okStop = true
+					}
+				})
+			}
+		}
+		r.Check(fmt.Sprintf("%s dial#%d can be interrupted", name, i+1), okCtx && okStop, posOf(p, d), name, fmt.Sprintf("the dial is handed reconnect's context: %v; the callee closes the transport when that context ends: %v. wire.Connect waits for the ConnectResponse without a bound; with the connection mutex held across the dial, Close(ctx) waits for a silent broker whatever its context", okCtx, okStop))
+	}
 }
